@@ -23,6 +23,7 @@ func vhOffer(sel, k int) (any, bool) {
 // (0 none, 1 SetNoNesting(b) before the push), firstIsStack
 func VH_C13_Push(p []int) {
 	n, m := p[0], p[1]
+	vhPreMode = 2
 	// with and without a capacity: a refused Stack must not use up room
 	pre := vhArbitraryStack(n, 0, false, vhOptMask&^ronly, 2, m+1)
 	s, cfg := pre.s, pre.cfg
